@@ -245,6 +245,46 @@ theorem passes_down (b c : Int) (hc : c < 0) : ∀ (k : Nat) (x : Int),
     · omega
     · simp only [Int.add_mul, Int.one_mul]; omega
 
+/-! ### FOR bounds are converted to the counter's type before the direction is taken -/
+
+/-- CINT: the converted value of a/d (a, d naturals) is the nearest integer, a half goes up -/
+theorem cintLit_nearest (a d : Nat) (hd : 0 < d) :
+    ∃ q : Nat, cintLit a d = q ∧ q * (2 * d) ≤ 2 * a + d ∧ 2 * a + d < q * (2 * d) + 2 * d := by
+  refine ⟨(2 * a + d) / (2 * d), ?_, Nat.div_mul_le_self _ _, Nat.lt_div_mul_add (by omega)⟩
+  have h : ¬ ((a : Int) < 0) := by omega
+  simp only [cintLit, Int.natAbs_natCast, h, if_false]
+
+/-- … and symmetrically for negative values (a half goes away from zero) -/
+theorem cintLit_neg (n : Int) (d : Nat) : cintLit (-n) d = - cintLit n d := by
+  unfold cintLit
+  simp only [Int.natAbs_neg]
+  by_cases h0 : n = 0
+  · subst h0
+    have : (2 * (0 : Int).natAbs + d) / (2 * d) = 0 := by
+      simp only [Int.natAbs_zero, Nat.mul_zero, Nat.zero_add]
+      rcases Nat.eq_zero_or_pos d with h | h
+      · subst h; rfl
+      · exact Nat.div_eq_of_lt (by omega)
+    rw [this]; decide
+  · by_cases h : n < 0
+    · have h' : ¬ (-n < 0) := by omega
+      simp only [h, h', if_true, if_false, Int.neg_neg]
+    · have h' : -n < 0 := by omega
+      simp only [h, h', if_true, if_false]
+
+/-- `for_` converts start, stop and step to the counter's type first; the direction (`sgn`), the
+    empty-loop test and NEXT's end test only ever see the converted values: a FOR with fractional bounds
+    is the FOR with their CINT values (so `STEP -.4` on an integer counter is `STEP 0`, not a downward loop). -/
+theorem for_bounds_converted_first (fixed : Bool) (code : List Instr) (s : St) (v : Nat)
+    (na nb nc : Int) (da db dc : Nat) :
+    execFor fixed code s v (.frac na da) (.frac nb db) (some (.frac nc dc)) =
+      execFor fixed code s v (.lit (cintLit na da)) (.lit (cintLit nb db)) (some (.lit (cintLit nc dc))) := by
+  rfl
+
+example : cintLit (-2) 5 = 0 ∧ cintLit 2 5 = 0 ∧ cintLit 1 2 = 1 ∧ cintLit (-1) 2 = -1 ∧ cintLit 5 2 = 3 ∧
+    cintLit (-3) 2 = -2 ∧ cintLit 1 3 = 0 ∧ cintLit 327674 10 = 32767 ∧ ¬ InRange (cintLit 327675 10) ∧
+    sign (stepValue (fun _ => 0) (some (.frac (-2) 5))) = 0 := by decide
+
 /-! ### Mech refines Spec -/
 
 /-- **Mech refines Spec** on programs compiled from structured FOR / WHILE nests (with PRINT and LET),
